@@ -189,9 +189,9 @@ Proof.
     rewrite <- (app_nil_r (_ ++ [_; _; _])). rewrite view_rows_alloc. exact Hnew.
 Qed.
 
-Lemma h_update_props_rows s oid o cols : state_ok s -> rows_ok s -> nth_error (objs s) oid = Some o -> rows_ok (fst (h_update_props s oid o cols)).
+Lemma h_update_props_rows s oid o cols ap : state_ok s -> rows_ok s -> nth_error (objs s) oid = Some o -> rows_ok (fst (h_update_props s oid o cols ap)).
 Proof.
-  intros Hs Hr Ho. unfold h_update_props. destruct (prep_props _ _ cols false true) as [r|]; [|exact Hr].
+  intros Hs Hr Ho. unfold h_update_props. destruct (prep_props _ _ cols ap true) as [r|]; [|exact Hr].
   match goal with |- context [store_cols ?b ?pp ?rr] => destruct (store_cols_app rr b pp) as [e He]; destruct (store_cols b pp rr) as [bs1 ps] end.
   simpl in He. subst bs1. cbn [fst]. apply set_rows; [exact Hs | exact Hr|].
   pose proof (Hr _ _ Ho) as Hw. destruct (Hs _ _ Ho) as ((Hr1 & _) & _). unfold rows_wf in *. cbn [oarr].
@@ -274,26 +274,27 @@ Proof.
   - destruct (lookup s h) as [[oid ob]|] eqn:El; [|exact Hr]. apply h_fold_rows; eauto using lookup_nth.
   - destruct (lookup s h) as [[oid ob]|] eqn:El; [|exact Hr]. apply h_astype_rows; eauto using lookup_nth.
   - destruct (lookup s h) as [[oid ob]|] eqn:El; [|exact Hr]. eapply h_pickle_rows; eauto using lookup_nth.
+  - destruct (lookup s h) as [[oid ob]|] eqn:El; [|exact Hr]. destruct (fpz && _); [exact Hr|]. eapply h_pickle_rows; eauto using lookup_nth.
   - destruct (lookup_all s hs) eqn:El; [|exact Hr]. apply h_concat_rows; [exact Hs | exact Hr | eapply lookup_all_nth; exact El].
 Qed.
 
-Lemma run_rows : forall ops s, state_ok s -> rows_ok s -> ops_dom s ops -> Forall op_wf ops -> rows_ok (run s ops).
+Lemma run_rows : forall ops s, state_ok s -> rows_ok s -> Forall op_wf ops -> rows_ok (run s ops).
 Proof.
-  induction ops as [|o t IH]; intros s Hs Hr Hd Hw; simpl; [exact Hr|].
-  destruct Hd as [Hd1 Hd2]. inv Hw. apply IH; [apply step_ok; assumption | apply step_rows; assumption | exact Hd2 | assumption].
+  induction ops as [|o t IH]; intros s Hs Hr Hw; simpl; [exact Hr|].
+  inv Hw. apply IH; [apply step_ok; assumption | apply step_rows; assumption | assumption].
 Qed.
 
 (* C05 rows_wf: after any history with well-formed inputs, every row of every database of the pool has strictly increasing
    columns in [0, bits); a database without matrix has no rows *)
-Theorem rows_wf_any_history ops : ops_dom init ops -> Forall op_wf ops -> forall h d, handle_db (run init ops) h = Some d ->
+Theorem rows_wf_any_history ops : Forall op_wf ops -> forall h d, handle_db (run init ops) h = Some d ->
   match dbits d with
   | Some b => Forall (fun r => ssorted (map fst r) /\ forall j, In j (map fst r) -> 0 <= j < b) (drows d)
   | None => drows d = []
   end.
 Proof.
-  intros Hd Hw h d Hh.
+  intros Hw h d Hh.
   assert (Hr : rows_ok (run init ops)).
-  { apply run_rows; [apply init_ok | intros oid o H; destruct oid; discriminate | exact Hd | exact Hw]. }
+  { apply run_rows; [apply init_ok | intros oid o H; destruct oid; discriminate | exact Hw]. }
   unfold handle_db in Hh. destruct (lookup (run init ops) h) as [[oid o]|] eqn:El; [|discriminate]. inv Hh.
   pose proof (Hr _ _ (lookup_nth _ _ _ _ El)) as H. unfold rows_wf in H. unfold view. cbn [dbits drows].
   destruct (oarr o); [exact H | reflexivity].
